@@ -422,6 +422,11 @@ def fbKind : Kind → Kind → Option Kind
   | _, .cls cy => (fbResult (constFbCls cy) (.cls cy)).map Kind.cls
   | _, _ => Option.none
 
+/-- `a.lft(b)`: `a` must be a StateSpace. -/
+def lftKind : Kind → Kind → Option Kind
+  | .cls c, k => (lftResult c k).map Kind.cls
+  | _, _ => Option.none
+
 /-- subsystems `interconnect` accepts: systems with states (no FRD, no constants). -/
 def icChild : Kind → Bool
   | .cls .ss | .cls .tf | .cls .nl | .cls .ic => true
@@ -438,6 +443,7 @@ def opKind : Op → List Kind → Option Kind
   | .un u, [k] => unKind u k
   | .bin op, [a, b] => (if op = .div then divResult a b else binResult a b).map Kind.cls
   | .feedback, [a, b] => fbKind a b
+  | .lft, [a, b] => lftKind a b
   | .series, .cls c :: ks => (foldKind (fun acc y => binResult y (.cls acc)) c ks).map Kind.cls
   | .parallel, .cls c :: ks => (foldKind (fun acc y => binResult (.cls acc) y) c ks).map Kind.cls
   | .append, .cls c :: ks => (foldKind appendResult c ks).map Kind.cls
@@ -565,6 +571,14 @@ theorem applyOp_sound (cfg : DtArg) (op : Op) (args : List Arg)
       simp only [Op.own, List.nil_append, List.map_cons, List.map_nil, applyOp]
       exact tsound_of_lsound (lsound_of_sound (fbArg_sound a b cfg hA))
     · exact tsound_err _ (by decide) _
+  case lft =>
+    rcases args with _ | ⟨a, _ | ⟨b, _ | ⟨c, r⟩⟩⟩
+    · exact tsound_err _ (by decide) _
+    · exact tsound_err _ (by decide) _
+    · have hA : Adm a.dt b.dt := admList_pair (by simpa [Op.own] using h)
+      simp only [Op.own, List.nil_append, List.map_cons, List.map_nil, applyOp]
+      exact tsound_of_lsound (lsound_of_sound (lftArg_sound a b cfg hA))
+    · exact tsound_err _ (by decide) _
   case series =>
     rcases args with _ | ⟨a, rest⟩
     · exact tsound_err _ (by decide) _
@@ -653,6 +667,16 @@ theorem allSys_total : ∀ (args : List Arg), (args.map Arg.kind).all icChild = 
     · simp [Arg.kind, icChild] at h
     · simp [Arg.kind, icChild] at h
 
+theorem lftArg_total (a b : Arg) (k : Kind) (d : Dt) (cfg : DtArg) (h : Adm a.dt b.dt)
+    (hk : lftKind a.kind b.kind = some k) (hj : join a.dt b.dt = some d) :
+    ∃ c, k = .cls c ∧ lftArg a b cfg = .ok ⟨c, d⟩ := by
+  rcases a with x | _ | _
+  · simp only [Arg.kind, lftKind, Option.map_eq_some_iff] at hk
+    obtain ⟨c, hc, rfl⟩ := hk
+    exact ⟨c, rfl, lftDt_total x.cls x.dt b c d cfg h hc hj⟩
+  · simp [Arg.kind, lftKind] at hk
+  · simp [Arg.kind, lftKind] at hk
+
 /-- on operands of supported kinds with compatible timebases every node operation returns a
 value of the tabulated kind. -/
 theorem applyOp_total (cfg : DtArg) (op : Op) (args : List Arg) (k : Kind) (d : Dt)
@@ -692,6 +716,16 @@ theorem applyOp_total (cfg : DtArg) (op : Op) (args : List Arg) (k : Kind) (d : 
       simp only [Op.own, List.nil_append, List.map_cons, List.map_nil, joinAll_pair] at hj
       simp only [List.map_cons, List.map_nil, opKind] at hk
       obtain ⟨c, rfl, hc⟩ := fbArg_total a b k d cfg hA hk hj
+      exact ⟨.sys ⟨c, d⟩, by simp [applyOp, hc, bind, Except.bind], rfl⟩
+    · simp [opKind] at hk
+  case lft =>
+    rcases args with _ | ⟨a, _ | ⟨b, _ | ⟨c, r⟩⟩⟩
+    · simp [opKind] at hk
+    · simp [opKind] at hk
+    · have hA : Adm a.dt b.dt := admList_pair (by simpa [Op.own] using h)
+      simp only [Op.own, List.nil_append, List.map_cons, List.map_nil, joinAll_pair] at hj
+      simp only [List.map_cons, List.map_nil, opKind] at hk
+      obtain ⟨c, rfl, hc⟩ := lftArg_total a b k d cfg hA hk hj
       exact ⟨.sys ⟨c, d⟩, by simp [applyOp, hc, bind, Except.bind], rfl⟩
     · simp [opKind] at hk
   case series =>
